@@ -13,6 +13,7 @@ A *scenario* is the abstract input graph the TLA+ specification (spec/Pipeline.t
 Only the flatbuffer object API is used (no code of the library under verification).
 """
 import hashlib
+import zlib
 import json
 
 import numpy as np
@@ -41,6 +42,7 @@ KIND_MEMBERS = {
     "FIXSL": ["SOFTMAX", "LOGISTIC"],
     "FIXT": ["TANH"],
     "UNSUP": ["RELU", "ABS"],
+    "UNSUP2": ["MAXIMUM", "MINIMUM"],
 }
 CODE = {
     "FULLY_CONNECTED": B.FULLY_CONNECTED, "CONV_2D": B.CONV_2D, "DEPTHWISE_CONV_2D": B.DEPTHWISE_CONV_2D,
@@ -48,7 +50,7 @@ CODE = {
     "ADD": B.ADD, "MUL": B.MUL, "SUB": B.SUB, "GELU": B.GELU, "RSQRT": B.RSQRT, "MEAN": B.MEAN,
     "AVERAGE_POOL_2D": B.AVERAGE_POOL_2D, "RESHAPE": B.RESHAPE, "TRANSPOSE": B.TRANSPOSE,
     "STRIDED_SLICE": B.STRIDED_SLICE, "SPLIT": B.SPLIT, "CONCATENATION": B.CONCATENATION,
-    "SOFTMAX": B.SOFTMAX, "LOGISTIC": B.LOGISTIC, "TANH": B.TANH, "RELU": B.RELU, "ABS": B.ABS,
+    "SOFTMAX": B.SOFTMAX, "LOGISTIC": B.LOGISTIC, "TANH": B.TANH, "RELU": B.RELU, "ABS": B.ABS, "MAXIMUM": B.MAXIMUM, "MINIMUM": B.MINIMUM,
 }
 CODE2NAME = {v: k for k, v in CODE.items()}
 NAME2KIND = {n: k for k, ms in KIND_MEMBERS.items() for n in ms if k != "CONCAT3"}
@@ -57,7 +59,7 @@ KIND_SIG = {
     "FC": ["act", "w", "b?"], "TCONV": ["aux", "w", "act", "b?"], "BMM": ["act", "w"], "EMB": ["aux", "w"],
     "EW2": ["x", "x"], "EW1": ["act"], "EW1A": ["act", "aux"], "SAMEIN0": ["act"], "SAMEIN1": ["act", "aux"],
     "SAMEIN3": ["act", "aux", "aux", "aux"], "SPLIT": ["aux", "act"], "CONCAT": ["x", "x"], "CONCAT3": ["x", "x", "x"], "FIXSL": ["act"],
-    "FIXT": ["act"], "UNSUP": ["act"],
+    "FIXT": ["act"], "UNSUP": ["act"], "UNSUP2": ["x", "x"],
 }
 NOUT = {"SPLIT": 2}
 
@@ -151,6 +153,40 @@ class G:
     return bytes(flatbuffer_utils.convert_object_to_bytearray(self.m))
 
 
+def stateful_model(seed=0, second_fc=False):
+  """x -> FULLY_CONNECTED -> RNN cell (hidden state in a variable tensor) [-> FULLY_CONNECTED] -> y.
+
+  The RNN cell is outside the quantizer's operator table (stays float); its state tensor lives inside the interpreter
+  between invocations, so the model is STATEFUL: its tensors after an invocation depend on the invocations before it on
+  the same interpreter. Returns (bytes, dict(input name -> shape))."""
+  rng = np.random.default_rng(seed)
+  g = G(b"stateful")
+  sg = g.subgraph()
+  r = lambda *sh: (rng.integers(-8, 9, size=sh) / 8.0).astype(np.float32)
+  x = g.tensor(sg, "x_in", [1, 4])
+  w1 = g.tensor(sg, "fc1_w", [3, 4], r(3, 4))
+  b1 = g.tensor(sg, "fc1_b", [3], r(3))
+  h = g.tensor(sg, "fc1_out", [1, 3])
+  rw = g.tensor(sg, "rnn_w", [2, 3], r(2, 3))
+  rr = g.tensor(sg, "rnn_r", [2, 2], r(2, 2))
+  rb = g.tensor(sg, "rnn_b", [2], r(2))
+  st = g.tensor(sg, "rnn_state", [1, 2], buffer=0)
+  sg.tensors[st].isVariable = True
+  y = g.tensor(sg, "rnn_out", [1, 2])
+  g.op(sg, B.FULLY_CONNECTED, [x, w1, b1], [h], opt(S.FullyConnectedOptionsT, keepNumDims=False), BO.FullyConnectedOptions)
+  g.op(sg, B.RNN, [h, rw, rr, rb, st], [y], opt(S.RNNOptionsT, fusedActivationFunction=S.ActivationFunctionType.TANH), BO.RNNOptions)
+  out = y
+  if second_fc:
+    w2 = g.tensor(sg, "fc2_w", [2, 2], r(2, 2))
+    b2 = g.tensor(sg, "fc2_b", [2], r(2))
+    out = g.tensor(sg, "fc2_out", [1, 2])
+    g.op(sg, B.FULLY_CONNECTED, [y, w2, b2], [out], opt(S.FullyConnectedOptionsT, keepNumDims=False), BO.FullyConnectedOptions)
+  sg.inputs = [x]
+  sg.outputs = [out]
+  g.signature("serving_default", 0, [("x0", x)], [("o0", out)])
+  return g.bytes(), {"x0": [1, 4]}
+
+
 def scn_key(scn):
   return hashlib.sha256(json.dumps(scn, sort_keys=True).encode()).hexdigest()[:16]
 
@@ -221,7 +257,7 @@ def _shapes(sub, codes):
     for t in acts:
       if len(sh[t]) != 4 and k not in ("EW1", "FIXSL", "FIXT", "UNSUP"):
         raise Unrealisable("non-NHWC operand")
-    if k in ("EW2", "CONCAT", "CONCAT3"):
+    if k in ("EW2", "UNSUP2", "CONCAT", "CONCAT3"):
       # constants take the shape of the other operand's [1,2,w,4]
       ash = [sh[t] for t in acts]
       if not ash:
@@ -239,7 +275,7 @@ def _shapes(sub, codes):
         sh[o["outs"][0]] = [max(ns), 2, max(ws), 4]
       for t in o["ins"]:
         if role[t] == "c":
-          want = [1, 2, min(s[2] for s in ash) if k == "EW2" else ash[0][2], 4]
+          want = [1, 2, min(s[2] for s in ash) if k in ("EW2", "UNSUP2") else ash[0][2], 4]
           if t in sh and sh[t] != want:
             raise Unrealisable("constant used under two shapes")
           sh[t] = want
@@ -419,9 +455,18 @@ def build(scn, seed=0, rng=None, const_fn=None, signatures=True, name_fn=None):
     sg.outputs = list(sub["gouts"])
     if signatures:
       key = "serving_default" if si == 0 else "sig%d" % si
-      g.signature(key, si, [("x%d" % i, t) for i, t in enumerate(sub["gins"])], [("o%d" % i, t) for i, t in enumerate(sub["gouts"])])
+      sins, souts = [("x%d" % i, t) for i, t in enumerate(sub["gins"])], [("o%d" % i, t) for i, t in enumerate(sub["gouts"])]
+      if sub.get("sigrev"):      # the signature lists its entries in another order than the subgraph
+        sins, souts = sins[::-1], souts[::-1]
+      g.signature(key, si, sins, souts)
     info["names"].append(names)
     info["shapes"].append(shapes)
     info["nt0"].append(len(role))
     info["nops0"].append(len(sub["ops"]))
+  # the signature table need not be in subgraph order (SignatureDef.subgraph_index says which subgraph is exported)
+  tabrev = scn.get("sigtabrev")
+  if tabrev is None:
+    tabrev = (zlib.crc32(json.dumps(scn["subs"], sort_keys=True).encode()) + seed) % 2 == 1
+  if signatures and len(scn["subs"]) > 1 and tabrev:
+    g.m.signatureDefs = g.m.signatureDefs[::-1]
   return g.bytes(), info
